@@ -30,6 +30,8 @@ def run(ctx) -> None:
     ctx.rule("OPS", "Python comparison map equals the operator oracle and is used by transform_comparison", floor=7)
     ctx.rule("CONN", "connective handlers emit their own connective; implication = not antecedent or consequent", floor=7)
     ctx.rule("EXH3", "the Python Transpiler implements every node kind", floor=1)
+    ctx.rule("PAREN", "an operand is emitted without parentheses only on paths where its own node kind was tested", floor=4)
+    ctx.rule("REFLOW", "line-broken variants of a template carry the same holes and text as the one-line form (Python generators)", floor=5)
     ctx.rule("DESC", "invariant descriptions go through wrap_text_into_lines + string_literal, all segments emitted", floor=1)
     ctx.rule("ERR1", "transpilation errors read", floor=12)
     ctx.rule("ERR1v", "values unused while error untested", floor=10)
@@ -55,6 +57,11 @@ def run(ctx) -> None:
     transp.check_ops(ctx, "python", "OPS")
     transp.check_connectives(ctx, "python", "CONN")
     _check_transpiler_complete(ctx, "python", "EXH3")
+    transp.check_parentheses(ctx, "python", "PAREN")
+    for m in p.modules.values():
+        if m.name.startswith("aas_core_codegen.python"):
+            for f in m.functions.values():
+                transp.check_reflow(ctx, f, "REFLOW")
     _check_description_flow(ctx, "python", "DESC")
     for modname in ("python.transpilation", "python.lib._generate_verification"):
         for f in p.module(modname).functions.values():
